@@ -189,13 +189,52 @@ func kindsFor(p path, val any) []string {
 			ks = append(ks, "deep-array-10k", "deep-object-10k", "deep-array-200")
 		}
 	}
-	switch val.(type) {
+	switch v := val.(type) {
 	case []any:
 		ks = append(ks, "array-append-null", "array-all-null", "array-empty")
+		// a copy of the first element with one of its (nested) members removed,
+		// appended: rows that differ in which optional members they carry
+		if len(v) > 0 {
+			if m, ok := v[0].(map[string]any); ok {
+				for _, sp := range stripPaths(m, 2) {
+					ks = append(ks, "dup-strip:"+sp)
+				}
+			}
+		}
 	case map[string]any:
 		ks = append(ks, "object-empty", "object-extra-member")
+		// member names that only the custom UnmarshalJSON methods know about
+		// (legacy / migrated members), with edge values
+		for _, n := range LegacyMembers {
+			if _, has := v[n]; !has {
+				ks = append(ks, "legacy:"+n+":[]", "legacy:"+n+":null", "legacy:"+n+":\"\"", "legacy:"+n+":{}")
+			}
+		}
 	}
 	return ks
+}
+
+// LegacyMembers is filled by the harness from the repository sources: the
+// JSON member names declared in auxiliary structs inside UnmarshalJSON methods.
+var LegacyMembers []string
+
+// stripPaths lists member paths (dot separated) inside an object up to a depth.
+func stripPaths(m map[string]any, depth int) []string {
+	var out []string
+	keys := make([]string, 0, len(m))
+	for k := range m {
+		keys = append(keys, k)
+	}
+	sort.Strings(keys)
+	for _, k := range keys {
+		out = append(out, k)
+		if sub, ok := m[k].(map[string]any); ok && depth > 1 {
+			for _, sp := range stripPaths(sub, depth-1) {
+				out = append(out, k+"."+sp)
+			}
+		}
+	}
+	return out
 }
 
 // apply returns the mutated document as JSON text ("" when not applicable).
@@ -309,6 +348,29 @@ func apply(data []byte, p path, kind string) []byte {
 		root = setAt(root, p, []any{})
 	case kind == "object-empty":
 		root = setAt(root, p, map[string]any{})
+	case strings.HasPrefix(kind, "legacy:"):
+		parts := strings.SplitN(kind, ":", 3)
+		m := val.(map[string]any)
+		var x any
+		_ = json.Unmarshal([]byte(parts[2]), &x)
+		m[parts[1]] = x
+	case strings.HasPrefix(kind, "dup-strip:"):
+		a := val.([]any)
+		b, _ := json.Marshal(a[0])
+		var cp any
+		_ = json.Unmarshal(b, &cp)
+		cur := cp.(map[string]any)
+		segs := strings.Split(strings.TrimPrefix(kind, "dup-strip:"), ".")
+		for i, sg := range segs {
+			if i == len(segs)-1 {
+				delete(cur, sg)
+			} else if nx, ok := cur[sg].(map[string]any); ok {
+				cur = nx
+			} else {
+				break
+			}
+		}
+		root = setAt(root, p, append(append([]any{}, a...), cp))
 	case kind == "object-extra-member":
 		m := val.(map[string]any)
 		m["unexpected-member"] = map[string]any{"a": []any{nil}}
